@@ -26,8 +26,20 @@ def readNearest (A : Img Int) (p : List Int) : Int :=
 def erodeAt (dt : DT) (A : Img Int) (sup : List (List Int × Int)) (p : List Int) : Int :=
   sup.foldl (fun v kh => min v (erodeSub dt (readNearest A (addPos p kh.1)) kh.2)) dt.hi
 
+/-- `erode<T>` at one pixel as the inner loop is written, with the early exit
+    `if (value == std::numeric_limits<T>::min()) break;` (an empty element gives the dtype maximum,
+    which is also what the `if (!N2)` branch fills in). -/
+def erodeAtExit (dt : DT) (A : Img Int) (sup : List (List Int × Int)) (p : List Int) : Int :=
+  go sup dt.hi
+where
+  go : List (List Int × Int) → Int → Int
+    | [], v => v
+    | kh :: t, v =>
+      let v' := min v (erodeSub dt (readNearest A (addPos p kh.1)) kh.2)
+      if v' = dt.lo then v' else go t v'
+
 def erodeModel (dt : DT) (A : Img Int) (sup : List (List Int × Int)) : Array Int :=
-  ((allPos A.shape).map (erodeAt dt A sup)).toArray
+  ((allPos A.shape).map (erodeAtExit dt A sup)).toArray
 
 /-- membership test of the specification: for bool images a non-zero entry, otherwise any entry
     different from the dtype minimum ("an entry equal to the dtype's smallest value means not in the element") -/
